@@ -2,6 +2,7 @@ import Driver.Codec
 import CardVerif.Model.Pot
 import CardVerif.Spec.SidePot
 import Driver.Poker
+import Driver.Evals
 open Lean CardVerif CardVerif.Codec
 
 namespace CardVerif.Driver
@@ -42,6 +43,7 @@ def handle (j : Json) : P Json := do
   | "rake" => opRake j
   | "settle" => opSettle j
   | "poker" => opPoker j
+  | "rank5" => opRank5 j
   | op => throw s!"unknown op {op}"
 
 end CardVerif.Driver
